@@ -26,10 +26,15 @@ COUNT = [0]
 DECL = []          # (object, trait name) of declared observers that fired
 
 
+class Pair(HasTraits):
+    nodes = List(Instance(HasTraits))
+
+
 class Child(HasTraits):
     v = Int()
     tags = List(Str)
     rows = List()            # rows of plain (unvalidated) python lists; List carries copy="deep"
+    peer = Instance(HasTraits)
 
 
 GRAPH_LOG = []
@@ -318,6 +323,17 @@ def graph_probes(pool, o, c):
                 (c.kind, list(c.choices), c.lo, c.hi, c.amount) == ("radio", ["yes", "no"], 0.0, 100.0, 50.0)
                 and (o.kind, list(o.choices), o.amount) == ("radio", ["yes", "no"], 50.0)
                 and outcome(lambda: setattr(c, "amount", 500.0)) == "TraitError"])
+    # 917: deep copy of a CONTAINER (a tuple, a List(Instance) value) of objects that refer to each other: inside the
+    # copy the references point at the copies that sit in the container (one memo for the whole copy)
+    a, b = Child(v=1), Child(v=2)
+    a.peer, b.peer = b, a
+    t = copy.deepcopy((a, b))
+    pair = Pair(nodes=[a, b])
+    n2 = copy.deepcopy(pair.nodes)
+    out.append(["inst", 917, "deep", t[0] is a or t[1] is b or n2[0] is a or n2[1] is b,
+                t[0].peer is t[1] and t[1].peer is t[0] and (t[0].v, t[1].v) == (1, 2)
+                and n2[0].peer is n2[1] and n2[1].peer is n2[0] and (n2[0].v, n2[1].v) == (1, 2)
+                and a.peer is b and b.peer is a])
     # 914: values stored under names that are not declared individually (wildcard-matched, plain undeclared) are part of
     # the object's state
     out.append(["inst", 914, "deep", False,
